@@ -374,8 +374,11 @@ class EventSeries(Cached):
                     threshold_values[i] = 0.5
 
                 # Compute threshold value according to quantile
-                thresholds[i] = \
-                    np.quantile(data_axswap[i], threshold_values[i])
+                #  interpolate in floating point: np.quantile works in the
+                #  dtype of the data, which overflows for narrow integer types
+                thresholds[i] = np.quantile(
+                    np.asarray(data_axswap[i], dtype=float),
+                    threshold_values[i])
 
                 # If no threshold_types is given, check if threshold value is
                 # larger or equal median, then 'above'
